@@ -13,6 +13,15 @@ Nodes(x) == LET kd == KindOf(x) IN
             IF kd = "rec" THEN {x} \cup UNION {Nodes(x[f]) : f \in DOMAIN x}
             ELSE IF kd = "seq" THEN UNION {Nodes(x[i]) : i \in DOMAIN x}
             ELSE {}
+\* TLC's "=" is partial: comparing a string with a record or a boolean is an evaluation error, and
+\* the "Val" field of literals is polymorphic (string, boolean, record).  Projected ASTs are
+\* therefore compared structurally, kinds first (total).
+RECURSIVE SameAst(_, _)
+SameAst(a, b) == LET ka == KindOf(a) kb == KindOf(b) IN
+  IF ka # kb THEN FALSE
+  ELSE IF ka = "atom" THEN ToString(a) = ToString(b)
+  ELSE DOMAIN a = DOMAIN b /\ \A f \in DOMAIN a : SameAst(a[f], b[f])
+
 Has(r, f) == f \in DOMAIN r
 IsK(n, k) == "k" \in DOMAIN n /\ n.k = k
 
